@@ -239,7 +239,7 @@ def _hexital(case, subject):
 
 
 def shards(tier):
-    n = 400 if tier == "quick" else 8000
+    n = 800 if tier == "quick" else 8000
     subs = ("HighLowAverage", "EMA", "SMA", "RSI", "ATR", "OBV", "Supertrend", "fn:rising", "TR", "WMA", "KC", "AROON")
     out = [Shard(s, (lambda s=s: cases(s)), n, subject=s) for s in subs]
     out.append(Shard("any", lambda: cases(None), n, subject="any", cost=2))
